@@ -1086,6 +1086,11 @@ def call_builtin(it, f, args, kwargs, node):
         return E.HashObj("hmac_sha512", (key, msg))
     if f is builtins.globals:
         return it.cur_frame.globals
+    if f is builtins.vars and len(args) == 1:
+        from . import ghosts as _g
+        if isinstance(args[0], _g.GhostRecord):
+            return {k: v for k, v in args[0].fields.items()}
+        raise Unsupported("vars() of a non-ghost object")
     if f is builtins.len:
         (x,) = args
         if isinstance(x, (list, tuple, dict, str, bytes, range)):
